@@ -105,7 +105,7 @@ func (h *snapHandler) ServeHTTP(w http.ResponseWriter, r *http.Request) {
 			break
 		}
 	}
-	h.seen = snapReq(r, all)
+	h.seen = snapReq(r, all) // taken after the body was read to its end: request trailers are in by now
 	for k, v := range h.headers {
 		w.Header()[k] = append([]string(nil), v...)
 	}
@@ -251,6 +251,25 @@ func runC13(c *Ctx, i int, r *rand.Rand) {
 	ctx := context.WithValue(context.Background(), ctxKey{}, http.Handler(down))
 	ctx = context.WithValue(ctx, ctxUnknownKey{}, http.Handler(down))
 	req := built.Req.WithContext(ctx)
+	// request trailers: announced up front, filled in (in place, in the request's own Trailer map - that is how
+	// net/http delivers them) when the body reaches its end
+	var wantTrailers http.Header
+	if chance(r, 20) {
+		wantTrailers = http.Header{}
+		req.Trailer = http.Header{}
+		for k, n := 0, 1+r.IntN(2); k < n; k++ {
+			name := fmt.Sprintf("X-Body-Trail%d", k)
+			req.Trailer[name] = nil
+			wantTrailers[name] = []string{pick(r, appValuePool)}
+		}
+		treq := req
+		built.Body.OnEOF = func() {
+			for k, v := range wantTrailers {
+				treq.Trailer[k] = v
+			}
+		}
+		c.Count("request-with-trailers")
+	}
 	before := snapReq(req, append([]byte(nil), creq.RawBody...))
 	var panicked any
 	func() {
@@ -312,6 +331,12 @@ func runC13(c *Ctx, i int, r *rand.Rand) {
 	c.Count(kind + "-compared")
 	if d := before.diff(down.seen); d != "" {
 		c.Violate(i, "request-altered/"+kind+"/"+classify(d), fmt.Sprintf("downstream handler did not receive the client's request unchanged: %s\n%s", d, describe()))
+	}
+	for k, v := range wantTrailers {
+		if got := down.seen.Trailer[k]; !reflect.DeepEqual(got, v) {
+			c.Violate(i, "request-trailer-lost/"+kind, fmt.Sprintf("request trailer %s: client sent %q after the body, the downstream handler saw %q\n%s", k, v, got, describe()))
+			break
+		}
 	}
 	if before.Proto != down.seen.Proto {
 		c.Count("proto-string-differs:" + before.Proto + "->" + down.seen.Proto)
